@@ -1,0 +1,7 @@
+//go:build !verif
+
+package statesync
+
+import rpchttp "github.com/tendermint/tendermint/rpc/client/http"
+
+func verifRPCClient(server string) *rpchttp.HTTP { return nil }
